@@ -3,7 +3,7 @@
 import ast
 import re as re_
 
-from .. import dtypes, proto, roles
+from .. import dtypes, dunder_sub, polarity, proto, roles
 from ..core import AnalysisError
 from ..proto import NC, NCEval
 from ..src import arg_names, calls_in, unparse
@@ -435,6 +435,7 @@ def run(ctx):
     attr_rules(ctx)
     homomorphism(ctx)
     guards(ctx)
+    polarity.guard_polarity(ctx)
     def_assign(ctx)
     packing(ctx)
     dtypes.dtype_folds(ctx)
@@ -443,6 +444,7 @@ def run(ctx):
     space_hash(ctx)
     combinator_shapes(ctx)
     dunder_algebra(ctx)
+    dunder_sub.subclass_dunders(ctx)
 
 
 def combinator_shapes(ctx):
